@@ -545,6 +545,27 @@ def _agg(g, scale):
                 sparse_group(g)
         else:
             agg_group(g, "top100" if i % 9 == 4 else None)
+    # AndAny on a receiver with MIXED copy-on-write flags (a copy-on-write clone edited in one chunk; the other chunks are still shared
+    # with the source) whose earlier keys are dropped by the intersection: the source must stay what it was
+    g.emit("# group agg andany-mixed-flags")
+    CHK = 65536
+    for drop in ((5,), (5, 6), ()):
+        for kind in ("A:10,20,30,40", "B:32768:5555555555555555*1024", "R:10+40,100+5"):
+            a, x, m1, m2 = g.fresh("am"), g.fresh("am"), g.fresh("am"), g.fresh("am")
+            g.emit("mkrepr %s cow=1;5:A:1,2,3;6:A:4,5;7:%s;9:%s;11:A:7,8" % (a, kind, kind))
+            g.emit("cowclone %s %s" % (x, a))
+            g.emit("add %s %d" % (x, 5 * CHK + 9))               # chunk 5 becomes private to x, the others stay shared
+            keep = [k for k in (5, 6) if k not in drop]
+            g.emit("mkrepr %s cow=0;%s7:A:10,12,20;9:A:10,12,14;11:A:7" % (m1, "".join("%d:A:1,2,4,5,9;" % k for k in keep)))
+            g.emit("mkrepr %s cow=0;7:A:14,30;9:A:16,30" % m2)
+            g.emit("andany %s %s %s" % (x, m1, m2))
+            g.emit("wf %s" % x)
+            g.emit("dig %s" % x)
+            g.emit("dig %s" % a)
+            g.emit("add %s %d" % (x, 9 * CHK + 100)); g.emit("rem %s %d" % (x, 7 * CHK + 10))
+            g.emit("dig %s" % a)
+            g.emit("fastor %s %s %s" % (g.fresh("am"), a, m2))
+        g.count("agg:fixed-andany-mixed-flags")
     # fixed corner cases, cheap and always present
     g.emit("# group agg fixed")
     g.emit("new fe")
